@@ -77,8 +77,8 @@ Proof. exact assigned_le_capacity. Qed.
 (* ==== allocmaps: the derived maps of the Go allocator as a refinement ====
    (section appended by the allocmaps builder; proofs in Proofs/AllocMaps*.v)
 
-   Model/AllocMaps.v carries allocated, sharingKeyForIP, portsInUse, servicesOnIP
-   and poolIPsInUse as the Go code does and transcribes assign / Unassign /
+   Model/AllocMaps.v carries allocated, sharingKeyForIP, portsInUse, servicesOnIP,
+   poolIPsInUse, poolIPV4InUse and poolIPV6InUse as the Go code does and transcribes assign / Unassign /
    checkSharing / Assign / the re-homing loop of SetPools on them.  [abs] forgets
    the derived maps.  [MCoh m]: every derived map equals what is rebuilt from
    [allocated]; [MInv m] = MCoh m + the invariant [Inv] of Model/Alloc.v on the
@@ -137,6 +137,11 @@ Theorem C11_setpools_commutes_with_abs : forall m ps order,
   MInv (m_set_pools m ps order) /\ st_equiv (abs (m_set_pools m ps order)) (set_pools (abs m) ps).
 Proof. exact m_set_pools_sim. Qed.
 
+(* a service produced a second time by the range statement (its entry was
+   re-inserted during the iteration) is left alone *)
+Theorem C11_setpools_revisit_is_noop : forall ps m e e', rehome ps e = Some e' -> rehome_step ps m e' = m.
+Proof. exact rehome_step_revisit. Qed.
+
 Theorem C11_op_commutes_with_abs_any : forall m o, MInv m ->
   snd (m_step m o) = snd (step (abs m) o) /\ st_equiv (abs (fst (m_step m o))) (fst (step (abs m) o)).
 Proof. exact lift_step_equiv. Qed.
@@ -159,7 +164,7 @@ Qed.
 Theorem C11_concrete_records_exclusive : forall ops, Forall wf_op ops -> Inv (abs (m_run ops m_init)).
 Proof. intros ops H. exact (proj1 (proj2 (m_run_MInv ops m_init H MInv_init))). Qed.
 
-(* counters computed from the maps (len of the per-family in-use maps) *)
+(* counters computed from the maps: len(poolIPV4InUse[n]) / len(poolIPV6InUse[n]) *)
 Theorem C11_counters_from_maps : forall m n, MCoh m -> m_counters_for m n = counters_for (abs m) n.
 Proof. exact m_counters_eq. Qed.
 
@@ -183,7 +188,7 @@ Example C11_sharing_maps_witness :
   let m := m_run sharing_ops m_init in
   key_of m ex_ip = Some {| sharing := 7; backend := 0 |} /\
   owner m ex_ip p80 = Some 1%N /\ owner m ex_ip p443 = Some 2%N /\
-  count m 1%N ex_ip = Some 2%Z /\ m_len_fam m 1%N F4 = 1%Z /\
+  count m 1%N ex_ip = Some 2%Z /\ aget ip_eqb ex_ip (use4_of m 1%N) = Some 2%Z /\ use6_of m 1%N = [] /\ m_len_fam m 1%N F4 = 1%Z /\
   let m2 := m_run [OUnassign 1%N; OAssign 2%N (ex_req [p443] 9%N) [ex_ip];
                    OSetPools {| by_name := [ex_pool2]; by_ns := []; by_sel := [] |}] m in
   key_of m2 ex_ip = Some {| sharing := 9; backend := 0 |} /\ owner m2 ex_ip p80 = None /\
